@@ -104,8 +104,17 @@ def main():
                 meta["ran"].append("scratch worktree of /repo HEAD + patch.diff; VERIF_REPO=<that worktree> ./check %s --tier %s (same effect as git -C /repo apply ...; check; git checkout)" % (c, a.tier))
         finally:
             sh("git -C %s worktree remove --force %s" % (REPO, cwt)); shutil.rmtree(cwt, ignore_errors=True)
+    # a re-evaluation with --skip-ctest keeps the ctest result (and earlier check results) of the first evaluation
+    prev_path = os.path.join(VERIF, "seeded", a.sid, "meta.json")
+    if os.path.exists(prev_path):
+        prev = json.load(open(prev_path))
+        if a.skip_ctest and "ctest_with_change" in prev:
+            meta["ctest_with_change"] = prev["ctest_with_change"]
+            meta["ran"].append("ctest result carried over from the evaluation of " + prev.get("when", "?"))
+        for c, r in prev.get("checks", {}).items():
+            meta["checks"].setdefault(c, r)
     valid = (meta.get("patch_applies") and not meta["demo_without_change"]["fails"] and meta.get("demo_with_change", {}).get("fails")
-             and (a.skip_ctest or (meta.get("ctest_with_change", {}).get("rc") == 0 and not meta["ctest_with_change"]["failed"])))
+             and ((a.skip_ctest and "ctest_with_change" not in meta) or (meta.get("ctest_with_change", {}).get("rc") == 0 and not meta["ctest_with_change"]["failed"])))
     meta["valid_seed"] = bool(valid)
     meta["caught_by"] = [c for c, r in meta["checks"].items() if r["rc"] != 0 and r["violations"] > 0]
     out = os.path.join(VERIF, "seeded", a.sid); os.makedirs(out, exist_ok=True)
